@@ -222,6 +222,21 @@ def container_conversions(chk, F, templates_ok):
                    found="from_superset -> %s, is_in_subset -> %s" % (repr(vfr)[:60], repr(vin)), required="is_some() == is_in_subset()")
 
 
+        # dimension 0: a PRESENT derivative without elements is in the subset (the checked narrowing of an empty matrix cannot fail:
+        # the verified element-wise template performs no conversion at all)
+        if ps:
+            for member in (True, False):
+                key = "conv|Derivative|coherence|empty|member=%s" % member
+                try:
+                    pin = run_paths_conv(F, b_in, lambda: [deriv("s", True, ("0", "1"))], membership_oracle({s.key(): member}))
+                    vals = [unref(v) for _, v in pin]
+                    ok = all(isinstance(v, BoolV) and v.b for v in vals)
+                    chk.ob(key, ok, "a present derivative of dimension 0 satisfies the membership predicate (its checked narrowing succeeds)",
+                           body_loc(F, b_in), found=repr(vals)[:80], required="true")
+                except Unsupported as ex:
+                    chk.undecide(key, "unsupported: %s" % ex, body_loc(F, b_in))
+
+
 def float_lifting(chk, F, ty):
     sp = Spec(ty)
     n = 0
